@@ -1003,8 +1003,10 @@ func (d *db) Count(ctx context.Context, prefix *schema.KeyPrefix) (*schema.Entry
 	}
 	defer tx.Cancel()
 
+	// only live keys are counted, as Scan returns them
 	keyReader, err := tx.NewKeyReader(store.KeyReaderSpec{
-		Prefix: WrapWithPrefix(prefix.Prefix, SetKeyPrefix),
+		Prefix:  WrapWithPrefix(prefix.Prefix, SetKeyPrefix),
+		Filters: []store.FilterFn{store.IgnoreExpired, store.IgnoreDeleted},
 	})
 	if err != nil {
 		return nil, err
